@@ -178,6 +178,8 @@ def canon(x, depth=0):
 
 
 VERSIONS = [(6, 2, 0), (6, 1, 0), (5, 1, 60)]
+import re as _re
+_ADDR = _re.compile(r"0x[0-9a-fA-F]+")
 
 
 class Slot:
@@ -251,6 +253,22 @@ def observe_problem(pr):
             out.append("t%d %s %s" % (t.number, canon(t.displacement_vector), canon(t.rotation_matrix)))
         except Exception as e:
             out.append("t%d!%s" % (t.number, exc_name(e)))
+    # what every object says about itself (str / repr / mcnp_str), addresses removed
+    for m in pr.materials:
+        try:
+            for iso, comp in m.material_components.items():
+                out.append("m%d iso %s lib=%s str=%s frac=%s" % (m.number, iso.mcnp_str(), iso.library, str(iso),
+                                                                 canon(comp.fraction)))
+        except Exception as e:
+            out.append("m%d iso!%s" % (m.number, exc_name(e)))
+    for kind, coll in (("c", pr.cells), ("s", pr.surfaces), ("m", pr.materials), ("t", pr.transforms),
+                       ("u", pr.universes), ("d", pr.data_inputs)):
+        for o in coll:
+            for fn in (str, repr):
+                try:
+                    out.append("%s %s" % (kind, _ADDR.sub("0x", fn(o))))
+                except Exception as e:
+                    out.append("%s %s!%s" % (kind, fn.__name__, exc_name(e)))
     return out
 
 
@@ -739,6 +757,57 @@ ARG_SPECS = {
 }
 
 
+def value_edit(pr, op):
+    """edit a value object reachable from the problem, in place: isotope library, component fraction, transform
+    array element, mode particle, universe number"""
+    from montepy.particle import Particle
+    what = op["what"]
+    if what == "isolib":
+        mats = list(pr.materials)
+        if not mats:
+            return "skipped"
+        m = mats[op["i"] % len(mats)]
+        isos = list(m.material_components)
+        if not isos:
+            return "skipped"
+        isos[op["j"] % len(isos)].library = op["lib"]
+        return "ok"
+    if what == "fraction":
+        mats = list(pr.materials)
+        if not mats:
+            return "skipped"
+        comps = list(mats[op["i"] % len(mats)].material_components.values())
+        if not comps:
+            return "skipped"
+        comps[op["j"] % len(comps)].fraction = op["value"]
+        return "ok"
+    if what == "trarray":
+        trs = list(pr.transforms)
+        if not trs:
+            return "skipped"
+        trs[op["i"] % len(trs)].displacement_vector[op["j"] % 3] = op["value"]
+        return "ok"
+    if what == "modeadd":
+        for part in (Particle.PHOTON, Particle.ELECTRON, Particle.PROTON):
+            if part not in pr.mode.particles:
+                pr.mode.add(part)
+                return "ok"
+        return "skipped"
+    if what == "universe":
+        us = [u for u in pr.universes if u.number != 0]
+        if not us:
+            return "skipped"
+        us[op["i"] % len(us)].number = op["num"]
+        return "ok"
+    raise ValueError(what)
+
+
+def gen_value_edit(rng):
+    what = rng.choice(["isolib", "isolib", "isolib", "fraction", "trarray", "modeadd", "universe"])
+    return {"what": what, "i": rng.randrange(6), "j": rng.randrange(6), "lib": rng.choice(["70c", "00c", "31c", "81c"]),
+            "value": rng.choice([0.125, 3.5, 9.25]), "num": rng.randint(300, 900)}
+
+
 # ----------------------------------------------------------------------------------------------
 # scenarios: a program on problem A, interleaved (or not) with operations on other things
 # ----------------------------------------------------------------------------------------------
@@ -871,10 +940,13 @@ class Scenario:
                 obj = self.args.setdefault(st["key"], arg_make(st["api"], st["spec"]))
                 return arg_apply(st["api"], pr, obj)
             return self.guarded("A.argset:" + st["api"], f)
+        if k == "valedit":
+            return self.guarded("A.valedit:" + st["op"]["what"], lambda: value_edit(pr, st["op"]))
         if k == "copykeep":
             def f():
                 self.kept = (pickle.loads(pickle.dumps(pr)) if st.get("how") == "pickle" else copy.deepcopy(pr))
                 self.kept_bytes = write_bytes(self.kept, self.dir, "Akept.i", st.get("version", (6, 2, 0)))
+                self.kept_obs = "\n".join(observe_problem(self.kept))
                 return sha(self.kept_bytes)
             return self.guarded("A.copykeep", f)
         if k == "copycheck":
@@ -882,7 +954,8 @@ class Scenario:
                 if getattr(self, "kept", None) is None:
                     return "nocopy"
                 b = write_bytes(self.kept, self.dir, "Akept.i", st.get("version", (6, 2, 0)))
-                return "stable" if b == self.kept_bytes else "COPY-CHANGED"
+                o = "\n".join(observe_problem(self.kept))
+                return "stable" if (b == self.kept_bytes and o == self.kept_obs) else "COPY-CHANGED"
             return self.guarded("A.copycheck", f)
         if k == "pickle":
             def f():
@@ -965,6 +1038,8 @@ class Scenario:
             return self.guarded("N.argset:" + op["api"], f)
         if k == "arg_inplace":
             return self.guarded("N.arg_inplace:" + op["api"], lambda: arg_inplace(op["api"], sl.pr))
+        if k == "valedit":
+            return self.guarded("N.valedit:" + op["op"]["what"], lambda: value_edit(sl.pr, op["op"]))
         if k == "edit":
             def f():
                 ok, _ = ED.apply(sl.h, op["e"])
@@ -1114,6 +1189,8 @@ def gen_case(rng, latch_props, latch_rate=0.15):
             extras.append({"s": "settr", "surf": rng.choice(surfs), "tr": rng.choice(meta["transforms"])})
         elif r < 0.7:
             extras.append({"s": "newcell", "num": rng.randint(200, 900), "surf": rng.choice(surfs)})
+        elif r < 0.76:
+            extras.append({"s": "valedit", "op": gen_value_edit(rng)})
         elif r < 0.82 and prog:
             extras.append({"s": "copyedit", "e": rng.choice(ED.gen_program(rng, meta, n=2) or prog),
                            "version": list(rng.choice(VERSIONS))})
@@ -1141,7 +1218,7 @@ def gen_case(rng, latch_props, latch_rate=0.15):
         pos = rng.randint(len(steps) - len([x for x in steps if x["s"] not in ("read", "construct", "parse")]), len(steps))
         steps.insert(pos, dict(shared, s="argset"))
         shared["after_step"] = pos
-    if rng.random() < 0.5 or shared is not None:
+    if rng.random() < 0.8 or shared is not None:
         steps.append({"s": "observe"})
     steps.append({"s": "write", "version": list(rng.choice(VERSIONS))})
     if rng.random() < 0.3:
@@ -1168,8 +1245,10 @@ def gen_case(rng, latch_props, latch_rate=0.15):
                     ops.append({"n": "edit", "slot": slot, "e": p2[0]})
             elif r < 0.58:
                 ops.append({"n": "write", "slot": slot, "version": list(rng.choice(VERSIONS))})
-            elif r < 0.64:
+            elif r < 0.61:
                 ops.append({"n": "observe", "slot": slot})
+            elif r < 0.64:
+                ops.append({"n": "valedit", "slot": slot, "op": gen_value_edit(rng)})
             elif r < 0.70:
                 b = rng.choice(BAD_OBJS)
                 ops.append({"n": "badobj", "block": b[0], "line": b[1]})
@@ -1182,6 +1261,8 @@ def gen_case(rng, latch_props, latch_rate=0.15):
                 p2 = ED.gen_program(rng, meta, n=1)
                 if p2:
                     ops.append({"n": "edit", "slot": ops[-1]["slot"], "e": p2[0]})
+                for _ in range(rng.choice([1, 2, 3])):
+                    ops.append({"n": "valedit", "slot": ops[-1]["slot"], "op": gen_value_edit(rng)})
             elif r < 0.92:
                 ops.append({"n": "geom", "slot": slot, "ci": rng.randrange(8), "si": rng.randrange(8),
                             "op": rng.choice(["and", "or"])})
@@ -1207,6 +1288,8 @@ def gen_case(rng, latch_props, latch_rate=0.15):
                 ops.append({"n": "argset", "slot": slot, "api": shared["api"], "key": shared["key"], "spec": shared["spec"]})
             else:
                 ops.append({"n": "arg_caller", "api": shared["api"], "key": shared["key"]})
+        if g > 0 and rng.random() < 0.25:
+            ops.append({"n": "valedit", "slot": rng.randrange(len(ntexts)), "op": gen_value_edit(rng)})
         if unread and (g == 0 or rng.random() < 0.5):
             k = unread.pop()
             ops.insert(0, {"n": "read", "slot": k, "text": ntexts[k][0]})
@@ -1430,8 +1513,47 @@ def real_copy(text):
                             stack.extend(x for x in ch if not isinstance(x, str))
             return out
         shared_nodes = len(nodes(pr) & nodes(cp))
+
+        # value objects reachable from a problem (isotopes, components, arrays, universes, the mode's set)
+        def values(p):
+            out = {}
+            for m in p.materials:
+                for iso, comp in m.material_components.items():
+                    out[id(iso)] = "Isotope %s of m%d" % (iso.mcnp_str(), m.number)
+                    out[id(comp)] = "MaterialComponent of m%d" % m.number
+            for t in p.transforms:
+                out[id(t.displacement_vector)] = "displacement_vector of tr%d" % t.number
+                out[id(t.rotation_matrix)] = "rotation_matrix of tr%d" % t.number
+            for u in p.universes:
+                out[id(u)] = "Universe %d" % u.number
+            return out
+        v1, v2 = values(pr), values(cp)
+        shared_values = sorted(v1[k] for k in set(v1) & set(v2))
+        # edit every value object of the COPY in place: the original must report and write the same
+        before = (write_bytes(pr, d, "o0.i", (6, 2, 0)), "\n".join(observe_problem(pr)))
+        edits_done = 0
+        for i in range(8):
+            for j in range(6):
+                for what in ("isolib", "fraction", "trarray"):
+                    try:
+                        if value_edit(cp, {"what": what, "i": i, "j": j, "lib": "7%dc" % j, "value": 0.03125 * (i + j + 1)}) == "ok":
+                            edits_done += 1
+                    except Exception:
+                        pass
+        for what in ("modeadd", "universe"):
+            try:
+                value_edit(cp, {"what": what, "i": 0, "j": 0, "num": 951})
+            except Exception:
+                pass
+        after = (write_bytes(pr, d, "o1.i", (6, 2, 0)), "\n".join(observe_problem(pr)))
+        changed = None
+        if before != after:
+            a, b = before[1].split("\n"), after[1].split("\n")
+            diff = [(x, y) for x, y in zip(a, b) if x != y][:2]
+            changed = {"bytes_differ": before[0] != after[0], "reports": diff}
         return {"src": r1, "copy": r2, "foreign_src": f1, "foreign_copy": f2, "shared_objects": shared,
-                "shared_nodes": shared_nodes}
+                "shared_nodes": shared_nodes, "shared_values": shared_values[:6], "copy_edits": edits_done,
+                "original_changed": changed}
     finally:
         _cleanup(d)
 
@@ -1686,7 +1808,7 @@ def replay(ctx, path):
     check_montepy_path()
     set_table()
     kind = case.get("kind") or c.get("kind")
-    if kind in ("setter-history", "latch", "alias"):
+    if kind in ("setter-history", "latch", "alias", "copy-affects-original"):
         c = case
     bad = None
     if kind == "history":
@@ -1694,6 +1816,9 @@ def replay(ctx, path):
     elif kind == "copy-affected":
         r = fork_map(run_scenario, [(c, "base")])[0]
         bad = {"outcomes": r.get("outcomes")} if "COPY-CHANGED" in (r.get("outcomes") or []) or "__crash__" in r else None
+    elif kind == "copy-affects-original":
+        r = fork_map(real_copy, [(case["text"],)])[0]
+        bad = r.get("original_changed") or r.get("__crash__")
     elif kind == "alias":
         ok_, d = alias_reproduces(case["probe"])
         bad = d if ok_ else None
@@ -1904,9 +2029,13 @@ def run(ctx):
         cd["pointers"] += sum(len(p) for _, p in r["src"])
         cd["shared_objects"] += r["shared_objects"]
         cd["shared_nodes"] += r["shared_nodes"]
+        cd["copy_value_edits"] = cd.get("copy_value_edits", 0) + r.get("copy_edits", 0)
+        if r.get("original_changed"):
+            ctx.fail({"kind": "copy-affects-original", "text": t, "shared_values": r.get("shared_values"),
+                      "original_changed": r["original_changed"]})
         if ans != copy_expected(r["src"]) or r["copy"] != r["src"] or r["foreign_copy"] or r["shared_objects"] \
-                or r["shared_nodes"]:
-            cp_bad.append({"model": ans[:200], "real": {k: r[k] for k in ("foreign_copy", "shared_objects", "shared_nodes")},
+                or r["shared_nodes"] or r.get("shared_values"):
+            cp_bad.append({"model": ans[:200], "real": {k: r.get(k) for k in ("foreign_copy", "shared_objects", "shared_nodes", "shared_values")},
                            "src": r["src"][:6], "copy": r["copy"][:6]})
     if cp_bad:
         ctx.broken_obligations.append({"obligation": "correspondence C: Iso.copy_problem vs copy.deepcopy (fresh identities, "
